@@ -148,13 +148,16 @@ type SrvEnv struct {
 var ifaceSeq = 100
 
 // StartServer builds the real server from the configuration and starts its Run loop.
-func StartServer(c *SrvConf) (*SrvEnv, error) {
+func StartServer(c *SrvConf) (*SrvEnv, error) { return StartServerProto(c, c.Proto(), c.SelfIP) }
+
+// StartServerProto: the same from an explicit (possibly faulty) proto configuration.
+func StartServerProto(c *SrvConf, pc *pb.ServerConfig, selfIP net.IP) (*SrvEnv, error) {
 	ifaceSeq++
 	iface := &net.Interface{Index: ifaceSeq, Name: fmt.Sprintf("v%d", ifaceSeq), HardwareAddr: c.SelfMAC, MTU: 1500}
 	rsocks.ResetSeg(iface)
-	libif.SetFakeAddr(iface, c.SelfIP)
+	libif.SetFakeAddr(iface, selfIP)
 	ctx, cancel := context.WithCancel(context.Background())
-	sx, err := server.New(ctx, log.New(io.Discard, "", 0), iface, c.Proto())
+	sx, err := server.New(ctx, log.New(io.Discard, "", 0), iface, pc)
 	if err != nil {
 		cancel()
 		return nil, err
